@@ -755,9 +755,14 @@ func vsdRunOne(p vsdPathIn, scratch string) (out vsdPathOut, rerr error) {
 		syncWG.Add(1)
 		go func() {
 			defer syncWG.Done()
-			for {
+			// (bounded: the stream ends when Stop has returned, and after
+			// 4000 blocks at the latest - a hung scenario must not keep
+			// mining for the whole bound)
+			for i := 0; i < 4000; i++ {
 				select {
 				case <-stopSync:
+					return
+				case <-r.stopCh:
 					return
 				case <-time.After(time.Duration(1+r.rng.Intn(3)) * time.Millisecond):
 				}
